@@ -717,6 +717,20 @@ func (s *v4Server) reserveLease(mac net.HardwareAddr) (l *dhcpsvc.Lease, err err
 	return l, nil
 }
 
+// uniqueGeneratedHostname returns the hostname generated from the IP address of
+// l, with a numeric suffix appended if another lease already uses it.
+func (s *v4Server) uniqueGeneratedHostname(l *dhcpsvc.Lease) (hostname string) {
+	base := aghnet.GenerateHostname(l.IP)
+	hostname = base
+	for i := 1; ; i++ {
+		if other, ok := s.hostsIndex[hostname]; !ok || other == l {
+			return hostname
+		}
+
+		hostname = fmt.Sprintf("%s-%d", base, i)
+	}
+}
+
 // commitLease refreshes l's values.  It takes the desired hostname into account
 // when setting it into the lease, but generates a unique one if the provided
 // can't be used.
@@ -729,7 +743,7 @@ func (s *v4Server) commitLease(l *dhcpsvc.Lease, hostname string) {
 
 		if prev == "" {
 			// The lease is just allocated due to DHCPDISCOVER.
-			hostname = aghnet.GenerateHostname(l.IP)
+			hostname = s.uniqueGeneratedHostname(l)
 		} else {
 			hostname = prev
 		}
